@@ -926,8 +926,8 @@ Proof.
   induction q as [|[c|h] q IH]; intros s beh cnt H; cbn [run_closing]; auto.
   - apply IH. apply SI_timer_close_cb; auto.
   - assert (H1 : SI (upd_h s h h_set_closed)) by (apply SI_upd_h_keep; auto).
-    pose proof (SI_user_cb _ (EClosed h) beh cnt H1) as X.
-    destruct (user_cb (upd_h s h h_set_closed) (EClosed h) beh cnt) as [[s1 e1] n1]. cbn [fst] in X.
+    pose proof (SI_user_cb _ (EClosed h (live_of s h)) beh cnt H1) as X.
+    destruct (user_cb (upd_h s h h_set_closed) (EClosed h (live_of s h)) beh cnt) as [[s1 e1] n1]. cbn [fst] in X.
     pose proof (IH s1 beh n1 X) as Y.
     destruct (run_closing q s1 beh n1) as [[s2 e2] n2]. exact Y.
 Qed.
@@ -1113,7 +1113,7 @@ Theorem closes_clean_refuted :
   snd (run false (init 1000) (w_close ++ [OClose 0; ODrain w_res1]) w_nobeh 0) =
     [ERet 0; ERet 0; ERet 0; EStat 0; EStat 1; EIter; EIter; EFinal UV_EBUSY 1] /\
   snd (run true (init 1000) (w_close ++ [OClose 0; ODrain w_res1]) w_nobeh 0) =
-    [ERet 0; ERet 0; ERet 0; EStat 0; EStat 1; EIter; EIter; EIter; EClosed 0; EFinal 0 0].
+    [ERet 0; ERet 0; ERet 0; EStat 0; EStat 1; EIter; EIter; EIter; EClosed 0 0; EFinal 0 0].
 Proof.
   split; [|split].
   - intros H.
